@@ -198,6 +198,12 @@ impl<'a> InteriorNode<'a> {
             self.cell_count()
         );
         let offset = self.slot_offset(index);
+        ensure!(
+            offset + INTERIOR_SLOT_SIZE <= PAGE_SIZE,
+            "interior slot {} lies beyond page boundary (cell_count={})",
+            index,
+            self.cell_count()
+        );
         InteriorSlot::ref_from_bytes(&self.data[offset..offset + INTERIOR_SLOT_SIZE])
             .map_err(|e| eyre::eyre!("failed to read interior slot at index {}: {:?}", index, e))
     }
@@ -327,6 +333,12 @@ impl<'a> InteriorNodeMut<'a> {
             self.cell_count()
         );
         let offset = self.slot_offset(index);
+        ensure!(
+            offset + INTERIOR_SLOT_SIZE <= PAGE_SIZE,
+            "interior slot {} lies beyond page boundary (cell_count={})",
+            index,
+            self.cell_count()
+        );
         InteriorSlot::ref_from_bytes(&self.data[offset..offset + INTERIOR_SLOT_SIZE])
             .map_err(|e| eyre::eyre!("failed to read interior slot at index {}: {:?}", index, e))
     }
